@@ -89,21 +89,24 @@ Print Assumptions C20_spec_reading_triples.
 
 (* ---- request TEXT (Remote/Text.v: AST, printer = the exact wire text, denotation) ---- *)
 
-(* reads: the query the store prints for triples() [SELECT of the unbound
-   positions / ASK], __len__ [count] and contexts() [GRAPH ?name], evaluated by
-   the denotation of the AST at the endpoint (one-triple basic graph patterns,
-   projection, the default-graph-uri parameter) and decoded the way the store
-   decodes the rows, is the answer of the request algebra - the term the
-   simulation theorem uses. *)
+(* reads: the AST from which the text of triples() [SELECT of the unbound
+   positions / ASK], __len__ [count] and contexts() [GRAPH ?name] is printed,
+   evaluated by the denotation of the AST at the endpoint (one-triple basic
+   graph patterns, projection, the default-graph-uri parameter) and decoded the
+   way the store decodes the rows, is the answer of the request algebra - the
+   term the simulation theorem uses.  (The printer print_q occurs in no theorem:
+   there is no parser model; that an endpoint reads the printed text back as
+   this AST is observed by the suites, not proved.) *)
 Theorem C20_text_reads_denote : forall alias o q dg e, read_q o = Some (q, dg) -> NoDup (quads e) ->
   decode o (sem_q alias q dg e) = read_ans alias o e.
 Proof. exact reads_denote. Qed.
 Print Assumptions C20_text_reads_denote.
 
-(* writes: every statement the store prints for add / addN / remove / add_graph /
-   remove_graph [INSERT DATA with or without GRAPH, (WITH g) DELETE {tp} WHERE {tp}
-   with ?S ?P ?O, CREATE GRAPH, DROP GRAPH / DROP DEFAULT] denotes, on every
-   endpoint dataset, the request-algebra term [compile] gives for it. *)
+(* writes: the AST from which each statement of add / addN / remove / add_graph /
+   remove_graph is printed [INSERT DATA with or without GRAPH, (WITH g) DELETE {tp}
+   WHERE {tp} with ?S ?P ?O, CREATE GRAPH, DROP GRAPH / DROP DEFAULT] denotes, on
+   every endpoint dataset, the request-algebra term [compile] gives for it.
+   (Same remark: about the AST, not about the characters.) *)
 Theorem C20_text_writes_denote : forall alias o asts, write_asts o = Some asts ->
   exists us, compile o = Some us /\
     Forall2 (fun a u => forall e, sem_u alias a e = apply_upd alias e u) asts us.
@@ -121,20 +124,32 @@ Proof. exact insert_items_wraps. Qed.
 Print Assumptions C20_insert_items_wraps.
 
 (* ... and with the scanner (BLOCK_FINDING_PATTERN, character by character): for
-   every update text written in the token language - nested blocks, short and
+   every text that can be written as a sequence of tokens - nested blocks;
+   short string literals (also the empty one, unless a third quote follows) and
    LONG string literals in either quote style containing braces / quotes /
-   escapes (short ones non-empty), IRIs, comments, escaped characters, other
-   characters *)
-Theorem C20_insert_named_graph_wraps : forall g l, forallb tok_ok l = true ->
+   escapes; IRIs; comments to the end of the line or of the text; escaped
+   characters; a quote, "<" or backslash at which no alternative of the
+   pattern matches (FILTER(?o < 3), an unpaired quote); any other character.
+   [toks_ok l []] checks each token in the context of the text that follows it.
+   Partial in this sense: texts whose braces (outside strings, IRIs, comments)
+   do not balance have no such token sequence, and that every balanced text has
+   one is not proved. *)
+Theorem C20_insert_named_graph_wraps_partial : forall g l, toks_ok l [] = true ->
   insert_named_graph g (flat_map tok_text l) = wrap_spec g (map erase l)
   /\ render (map erase l) = flat_map tok_text l.
 Proof. exact insert_named_graph_wraps. Qed.
-Print Assumptions C20_insert_named_graph_wraps.
+Print Assumptions C20_insert_named_graph_wraps_partial.
 
 (* non-vacuity: a text with a brace pair and an escaped quote inside a string, a brace inside a
    comment and a blank block is in the token language; only the first block gets the wrapper *)
 Example C20_named_graph_nonvacuous :
-  forallb tok_ok ex_toks = true /\ insert_named_graph ex_graph (flat_map tok_text ex_toks) = ex_out.
+  toks_ok ex_toks [] = true /\ insert_named_graph ex_graph (flat_map tok_text ex_toks) = ex_out.
+Proof. vm_compute. split; reflexivity. Qed.
+
+(* ordinary SPARQL is in the language:  W { ?o < 3 . ?s ?p "" } #{   (a "<" that opens no IRI, the
+   empty literal, a comment running to the end of the text with a brace in it) *)
+Example C20_named_graph_ordinary_sparql :
+  toks_ok ex_toks2 [] = true /\ insert_named_graph ex_graph (flat_map tok_text ex_toks2) = ex_out2.
 Proof. vm_compute. split; reflexivity. Qed.
 
 (* F13e (before 45087ba7, the LONG alternatives after the short ones): a block holding one LONG
